@@ -5,7 +5,10 @@ using namespace vf;
 
 static Verdict runCase(const EncCase& c, Info& info)
 {
-    std::vector<lib::Packet> batch = buildBatch(c);
+    lib::Encoder enc;
+    enc.setDeviceId(c.dev);
+    enc.setStreamId(c.stream);
+    std::vector<lib::Packet> batch = priorCallsThenBatch(enc, c);
     std::vector<model::LayoutPacket> lp;
     std::vector<size_t> lengths;
     for (size_t i = 0; i < batch.size(); ++i)
@@ -13,10 +16,6 @@ static Verdict runCase(const EncCase& c, Info& info)
         lengths.push_back(batch[i].getPayloadLength());
         lp.push_back({c.packets[i].messageType(), lengths.back()});
     }
-    lib::Encoder enc;
-    enc.setDeviceId(c.dev);
-    enc.setStreamId(c.stream);
-    runPriorCalls(enc, c);
     auto frames = encodeVia(enc, batch, lib::DataContext{c.minB, c.maxB}, c.overload);
 
     // parse: (frame message type, [(seg, len)]) for frames that hold at least one message
